@@ -579,8 +579,9 @@ def _budgeted(fb, body, cfg, vars_, org, head, loop, edges):
             continue
         # the budget test must dominate every other block of the loop body (it is at the loop top)
         others = [o for o in loop if o != head and o != b and not reaches_without(cfg, [head], o, cut_blocks=[b])]
-        if len(others) < len(loop) - 3:
-            continue
+        before = [o for o in loop if o != b and o not in others]
+        if len(others) < len(loop) - 3 and any(body.blocks[o]["term"]["k"] == "call" for o in before):
+            continue  # something happens in the loop before the budget is looked at
         cstep = _inc_blocks(body, vars_, ck, loop)
         # position variable: compared in the loop condition at the head
         pos = None
